@@ -156,6 +156,23 @@ Definition c12_spec_range (lo hi : Z) (n : nat) (s : c12_str) : c12_verdict (lis
        | None => C12Reject
        end.
 
+(* the exact statement for fixed-size ranges: the text is n integer texts, each preceded by
+   optional blanks and ending where its digits end, followed by blanks only *)
+Definition c12_nondigit_start (s : c12_str) : Prop :=
+  match s with [] => True | c :: _ => c12_digit c = None end.
+
+Inductive c12_items_then (lo hi : Z) : nat -> c12_str -> list Z -> c12_str -> Prop :=
+| C12ItemsDone : forall s, c12_items_then lo hi O s [] s
+| C12ItemsMore : forall n b t v r vs rest,
+    forallb c12_is_space b = true ->
+    c12_spec_int_token lo hi t = Some v ->
+    c12_nondigit_start r ->
+    c12_items_then lo hi n r vs rest ->
+    c12_items_then lo hi (S n) (b ++ t ++ r) (v :: vs) rest.
+
+Definition c12_spec_range_rel (lo hi : Z) (n : nat) (s : c12_str) (vs : list Z) : Prop :=
+  exists rest, c12_items_then lo hi n s vs rest /\ forallb c12_is_space rest = true.
+
 Definition c12_spec_bool (s : c12_str) : option bool :=
   let r := map c12_tolower s in
   if c12_eqs r ["y";"e";"s"] || c12_eqs r ["t";"r";"u";"e"] then Some true
@@ -164,3 +181,160 @@ Definition c12_spec_bool (s : c12_str) : option bool :=
        | Some v => Some (negb (v =? 0)%Z)
        | None => None
        end.
+
+(* ------------------------------------------------------------------ the documented dialect, single-line part
+
+   A document is a list of lines of four kinds.  b* are blanks (spaces, tabs, CR), "tight" means
+   neither starting nor ending with a blank.  Its meaning is the list of (full key, value)
+   assignments in order, where a key below a header  [name]  is  name.key  -- i.e. groups and dotted
+   keys denote the same path. *)
+Inductive c12_sline :=
+| C12SBlank (b : c12_str)                                   (* b *)
+| C12SComment (b text : c12_str)                            (* b # text *)
+| C12SHeader (b0 b1 name b2 trail : c12_str)                (* b0 [ b1 name b2 ] trail *)
+| C12SAssign (b0 key b1 b2 value b3 comment : c12_str)      (* b0 key b1 = b2 value b3 [# ...] *)
+| C12SQuoted1 (b0 key b1 b2 : c12_str) (q : ascii) (l0 b3 comment : c12_str)
+                                                            (* b0 key b1 = b2 q l0 q b3 [# ...] *)
+| C12SQuotedN (b0 key b1 b2 : c12_str) (q : ascii) (l0 : c12_str) (mid : list c12_str) (lastl b3 : c12_str).
+                                                            (* b0 key b1 = b2 q l0 / mid... / lastl q b3 *)
+
+(* the lines an item is written as (a multi-line quoted value takes several) *)
+Definition c12_render_sline (l : c12_sline) : list c12_str :=
+  match l with
+  | C12SBlank b => [b]
+  | C12SComment b text => [b ++ "#" :: text]
+  | C12SHeader b0 b1 name b2 trail => [b0 ++ "[" :: b1 ++ name ++ b2 ++ "]" :: trail]
+  | C12SAssign b0 key b1 b2 value b3 comment => [b0 ++ key ++ b1 ++ "=" :: b2 ++ value ++ b3 ++ comment]
+  | C12SQuoted1 b0 key b1 b2 q l0 b3 comment => [b0 ++ key ++ b1 ++ "=" :: b2 ++ (q :: l0 ++ q :: b3) ++ comment]
+  | C12SQuotedN b0 key b1 b2 q l0 mid lastl b3 =>
+      (b0 ++ key ++ b1 ++ "=" :: b2 ++ q :: l0) :: mid ++ [lastl ++ q :: b3]
+  end.
+
+(* the value a multi-line quoted item denotes: its lines joined by line breaks *)
+Definition c12_qvalue (l0 : c12_str) (more : list c12_str) : c12_str :=
+  fold_left (fun acc l => acc ++ "010" :: l) more l0.
+(* the text read so far does not yet end (ignoring blanks) with the quote character *)
+Definition c12_qopen (q : ascii) (acc : c12_str) : bool :=
+  match c12_last_opt (c12_rtrim acc) with Some c => negb (Ascii.eqb c q) | None => true end.
+Fixpoint c12_qopen_all (q : ascii) (acc : c12_str) (more : list c12_str) : bool :=
+  match more with
+  | [] => true
+  | l :: r => c12_qopen q acc && c12_qopen_all q (acc ++ "010" :: l) r
+  end.
+
+Definition c12_blankb (b : c12_str) : bool := forallb c12_is_ws b.
+Definition c12_nochar (c : ascii) (s : c12_str) : bool := forallb (fun x => negb (Ascii.eqb x c)) s.
+Definition c12_tightb (s : c12_str) : bool := c12_eqs (c12_ltrim s) s && c12_eqs (c12_rtrim s) s.
+
+Definition c12_key_ok (key : c12_str) : bool :=
+  negb (c12_is_nil key) && c12_tightb key && c12_nochar "=" key && c12_nochar "#" key
+  && match key with c :: _ => negb (Ascii.eqb c "[") | [] => true end.
+Definition c12_comment_ok (comment : c12_str) : bool :=
+  match comment with [] => true | c :: _ => Ascii.eqb c "#" end.
+
+Definition c12_sline_ok (l : c12_sline) : bool :=
+  match l with
+  | C12SQuoted1 b0 key b1 b2 q l0 b3 comment =>
+      c12_blankb b0 && c12_blankb b1 && c12_blankb b2 && c12_blankb b3 && c12_key_ok key
+      && c12_is_quote q && c12_nochar "#" l0 && c12_comment_ok comment
+  | C12SQuotedN b0 key b1 b2 q l0 mid lastl b3 =>
+      c12_blankb b0 && c12_blankb b1 && c12_blankb b2 && c12_blankb b3 && c12_key_ok key
+      && c12_is_quote q && c12_nochar "#" l0 && c12_qopen_all q l0 (mid ++ [lastl])
+  | C12SBlank b => c12_blankb b
+  | C12SComment b _ => c12_blankb b
+  | C12SHeader b0 b1 name b2 _ =>
+      c12_blankb b0 && c12_blankb b1 && c12_blankb b2 && c12_tightb name && c12_nochar "]" name
+  | C12SAssign b0 key b1 b2 value b3 comment =>
+      c12_blankb b0 && c12_blankb b1 && c12_blankb b2 && c12_blankb b3 && c12_key_ok key
+      && c12_tightb value && c12_nochar "#" value
+      && match value with c :: _ => negb (c12_is_quote c) | [] => true end
+      && c12_comment_ok comment
+  end.
+
+Fixpoint c12_sdoc_assigns (ls : list c12_sline) (prefix : c12_str) : list (c12_str * c12_str) :=
+  match ls with
+  | [] => []
+  | C12SHeader _ _ name _ _ :: r => c12_sdoc_assigns r (if c12_is_nil name then [] else name ++ ["."])
+  | C12SAssign _ key _ _ value _ _ :: r => (prefix ++ key, value) :: c12_sdoc_assigns r prefix
+  | C12SQuoted1 _ key _ _ _ l0 _ _ :: r => (prefix ++ key, l0) :: c12_sdoc_assigns r prefix
+  | C12SQuotedN _ key _ _ _ l0 mid lastl _ :: r =>
+      (prefix ++ key, c12_qvalue l0 (mid ++ [lastl])) :: c12_sdoc_assigns r prefix
+  | _ :: r => c12_sdoc_assigns r prefix
+  end.
+
+(* reading an assignment list into a tree: duplicates within the source are rejected, existing keys
+   kept or overwritten, the rest is ParameterTree::operator[] *)
+Fixpoint c12_store_all (kvs : list (c12_str * c12_str)) (pt : c12_tree) (seen : list c12_str) (ow : bool)
+  : c12_tree * c12_status :=
+  match kvs with
+  | [] => (pt, C12Ok)
+  | (k, v) :: r => match c12_store pt seen ow k v with
+                   | inl (pt', seen') => c12_store_all r pt' seen' ow
+                   | inr e => e
+                   end
+  end.
+
+(* ------------------------------------------------------------------ command line
+
+   readOptions: the argument list  -k1 v1 -k2 v2 ...  denotes the assignments k_i := v_i.
+   readNamedOptions, documented mapping: positional arguments go to the keywords in order; named
+   arguments --k=v go to k; the first [required] keywords must have received a value; more
+   positional arguments than keywords are superfluous. *)
+Fixpoint c12_set_all (kvs : list (c12_str * c12_str)) (pt : c12_tree) : c12_tree * c12_status :=
+  match kvs with
+  | [] => (pt, C12Ok)
+  | (k, v) :: r => let '(pt', ok) := c12_set pt (c12_path k) v in
+                   if ok then c12_set_all r pt' else (pt', C12RangeError)
+  end.
+
+Definition c12_render_options (kvs : list (c12_str * c12_str)) : list c12_str :=
+  flat_map (fun kv : c12_str * c12_str => ["-"%char :: fst kv; snd kv]) kvs.
+
+Definition c12_plain_arg (a : c12_str) : bool :=
+  match c12_dashdash a with Some _ => false | None => negb (c12_eqs a ["-"; "h"]) end.
+
+(* only positional arguments, overwrite allowed *)
+Definition c12_spec_named_positional (args keywords : list c12_str) (required : nat) (pt : c12_tree)
+  : c12_tree * c12_status :=
+  let '(t, st) := c12_set_all (combine keywords args) pt in
+  match st with
+  | C12Ok => if Nat.ltb (length keywords) (length args) then (t, C12ParserError)
+             else if Nat.ltb (length args) (Nat.min required (length keywords)) then (t, C12ParserError)
+             else (t, C12Ok)
+  | _ => (t, st)
+  end.
+
+(* only named arguments --k=v with every k a keyword, overwrite allowed *)
+Definition c12_named_pair (a : c12_str) : option (c12_str * c12_str) :=
+  match c12_dashdash a with
+  | Some body => c12_split_at "=" body
+  | None => None
+  end.
+Definition c12_spec_named_only (pairs : list (c12_str * c12_str)) (keywords : list c12_str) (required : nat)
+           (pt : c12_tree) : c12_tree * c12_status :=
+  let '(t, st) := c12_set_all pairs pt in
+  match st with
+  | C12Ok => if forallb (fun k => existsb (c12_eqs k) (map fst pairs)) (firstn required keywords)
+             then (t, C12Ok) else (t, C12ParserError)
+  | _ => (t, st)
+  end.
+
+(* two paths of one hierarchy: neither is a prefix of the other (in particular they differ) *)
+Fixpoint c12_unrel (p q : list c12_str) : bool :=
+  match p, q with
+  | k :: p', k' :: q' => if c12_eqs k k' then c12_unrel p' q' else true
+  | _, _ => false
+  end.
+(* a list of keys whose paths are pairwise unrelated *)
+Fixpoint c12_hierarchy (ps : list (list c12_str)) : bool :=
+  match ps with
+  | [] => true
+  | p :: r => forallb (c12_unrel p) r && c12_hierarchy r
+  end.
+
+(* lines written to a byte string *)
+Fixpoint c12_join_lines (ls : list c12_str) : c12_str :=
+  match ls with
+  | [] => []
+  | l :: r => match r with [] => l | _ => l ++ "010" :: c12_join_lines r end
+  end.
